@@ -26,6 +26,7 @@ ENGINE = "clock"
 LEVEL = "exploration"
 TECHNIQUE = "deterministic simulation: seeded timer operations and clock advances on a real ReactorBase vs reference timer model"
 QUICK_RUNS = 28000
+USES_DEPTH = True   # thorough tier: history length bound scales with sim.depth (1..3) beyond the quick tier\'s run indices
 BATCH = 100
 RUN_WALL_LIMIT_S = 60   # a run takes milliseconds; the margin is for descheduling on a loaded host
 COMPONENTS = {"real": ["twisted.internet.base.ReactorBase.callLater/_insertNewDelayedCalls/_moveCallLaterSooner/timeout/runUntilCurrent/getDelayedCalls",
@@ -144,7 +145,7 @@ class Scenario(TimerScenario):
 
     def main(self):
         sim = self.sim
-        nops = sim.draw_int(4, 120, "nops")
+        nops = sim.draw_int(4, 120 * sim.depth, "nops")
         self.inner_p = sim.draw_choice([0.0, 0.3, 0.5], "inner-ops")
         burst = sim.draw_bool(0.3, "burst")
         self.burst_done = not burst
@@ -157,7 +158,7 @@ class Scenario(TimerScenario):
                                     ("reset", wr), ("delay", wr), ("timeout", 1),
                                     ("burst", 0 if self.burst_done else 1)], "op")
             if op == "iterate":
-                sim.step(self.STEP_CAP)
+                sim.step(self.STEP_CAP * sim.depth)
                 self.op_iterate()
             elif op == "timeout":
                 self.check_timeout("top")
